@@ -14,9 +14,10 @@ import BumpverVerif.Driver.Cal
 import BumpverVerif.Driver.Config
 import BumpverVerif.Driver.V1
 import BumpverVerif.Driver.Update
+import BumpverVerif.Driver.Prims
 open Lean BV BV.Drv
 
-def handlers : List Handler := [handleCore, handleV2, handleRw, handleCli, handlePep, handleCal, handleConfig, handleV1, handleUpdate]
+def handlers : List Handler := [handleCore, handleV2, handleRw, handleCli, handlePep, handleCal, handleConfig, handleV1, handleUpdate, handlePrims]
 
 def handle (j : Json) : Except String Json := do
   let op ← getStr j "op"
